@@ -61,7 +61,15 @@ contract(S + 'TileLayer._internal_tile_coord', props=['C16', 'C02', 'C09'],
          ensures=[
              # whatever is returned is a tile of the grid (no request can address a tile outside it)
              """0 <= result[2] < self.grid.grid.levels and 0 <= result[0] < self.grid.grid.grid_sizes[result[2]][0]
-                and 0 <= result[1] < self.grid.grid.grid_sizes[result[2]][1]"""],
+                and 0 <= result[1] < self.grid.grid.grid_sizes[result[2]][1]""",
+             # C02: the column is the requested one, the level is the advertised level mapped to the internal one, and the row is
+             # counted from the other edge exactly when the request's origin convention differs from the grid's
+             'result[0] == tile_request.tile[0] and result[2] == int_level(self.grid, tile_request.tile[2], use_profiles)',
+             """result[1] == (self.grid.grid.grid_sizes[result[2]][1] - 1 - tile_request.tile[1]
+                   if ((tile_request.origin == 'nw' and not (self.grid.grid.origin == 'ul' or self.grid.grid.origin == 'nw'))
+                       or (tile_request.origin == 'sw' and not (self.grid.grid.origin == 'll' or self.grid.grid.origin == 'sw'
+                                                                or self.grid.grid.origin is None)))
+                   else tile_request.tile[1])"""],
          must_fail='result[0] == 0')
 
 
